@@ -98,16 +98,23 @@ def verify_function(con, reg, repo="/repo", z3_ms=None, extra=None):
     seen_labels = {}
     for label, hyps in eng.reach:
         seen_labels[label] = seen_labels.get(label, 0) + 1
-        if seen_labels[label] > 2:
+        if seen_labels[label] > 4:
             continue
-        can.append(Oblig("%s::canary::reach:%s" % (con.qual, label), "canary", gax + list(hyps), z3.BoolVal(False)))
+        can.append(Oblig("%s::canary::reach:%s#%d" % (con.qual, label, seen_labels[label]), "canary", gax + list(hyps), z3.BoolVal(False)))
     for i, (st, rv) in enumerate(eng.return_states[:8]):
         can.append(Oblig("%s::canary::must-fail:post-False#%d" % (con.qual, i), "canary", gax + list(st.pc), z3.BoolVal(False)))
     cres = solve.discharge(can, z3_ms=1500, use_cvc5=False)
     mf = [r for r in cres if "must-fail" in r["name"]]
+    # a label is fine when at least one of the (up to 4) paths reaching it is not provably dead (dead paths that the cheap pruner did
+    # not remove are legitimate: e.g. a branch excluded by a quantified precondition)
+    by_label = {}
     for r in cres:
         if "must-fail" not in r["name"]:
-            out["canaries"].append(dict(kind="not-provably-false", label=r["name"].split("::canary::")[1], result=r["status"], ok=(r["status"] != "discharged")))
+            lab = r["name"].split("::canary::")[1].rsplit("#", 1)[0]
+            by_label.setdefault(lab, []).append(r["status"])
+    for lab, sts in by_label.items():
+        okl = any(s_ != "discharged" for s_ in sts)
+        out["canaries"].append(dict(kind="not-provably-false", label=lab, result="reachable" if okl else "ALL PATHS DEAD", ok=okl))
     if mf:
         okc = any(r["status"] != "discharged" for r in mf)
         out["canaries"].append(dict(kind="must-fail", label="post::False on some return path (of %d sampled)" % len(mf), result="not provable" if okc else "PROVABLE", ok=okc))
